@@ -149,7 +149,7 @@ LexOne(x, i) ==
      ELSE IF MatchCI(x, i, GeographyKw) THEN
         LET e == StringEnd(x, i + 9) IN
         IF e = 0 THEN <<"lexerror">>
-        ELSE IF \E k \in (i + 10)..(e - 2) : x[k] = Quote1 THEN <<"unknown">>
+        \* the body is kept verbatim: a doubled quote inside it stays doubled (unlike in a string literal)
         ELSE << <<"lit", "Geography", Slice(x, i + 10, e - 1)>>, e >>
      ELSE
         LET e == WordEnd(x, i)
